@@ -20,7 +20,8 @@ def make_obj(spec):
     elif c == 'Array':
         o = emdfile.Array(data=np.full((3,) * spec['rank'], spec['tok'], dtype=np.int64), name=spec['name'], units='')
     elif c == 'PointList':
-        o = emdfile.PointList(data=np.array([(spec['tok'],), (spec['tok'],)], dtype=[('x', '<i8')]), name=spec['name'])
+        # token 0 = a PointList of no points (len() == 0: the only falsy node there is)
+        o = emdfile.PointList(data=np.array([(spec['tok'],), (spec['tok'],)] if spec['tok'] else [], dtype=[('x', '<i8')]), name=spec['name'])
     elif c == 'PointListArray':
         o = emdfile.PointListArray(dtype=[('x', '<i8')], shape=(1, 2), name=spec['name'])
         o[0, 0].add(np.array([(spec['tok'],)], dtype=[('x', '<i8')]))
@@ -542,7 +543,7 @@ def rand_tree(rng, rootname, n_nodes, names=None, classes=('Node', 'Array', 'Poi
         if not cand:
             continue
         c = rng.choice(classes)
-        node = {'cls': c, 'name': rng.choice(cand), 'tok': fresh_tok() if c != 'Node' else 0,
+        node = {'cls': c, 'name': rng.choice(cand), 'tok': (fresh_tok() if c != 'Node' else 0) if not (c == 'PointList' and rng.random() < 0.15) else 0,
                 'rank': rng.choice([1, 1, 2, 3, 0]) if c == 'Array' else 0, 'mds': [], 'kids': []}
         if rng.random() < md_p:
             node['mds'] = [[k, fresh_tok()] for k in rng.sample(['m1', 'm2', 'm3'], rng.choice([1, 1, 2]))]
